@@ -190,6 +190,20 @@ def no_store_into_immutable(ck, rule):
                         fresh = True
             if f.qualname in ("objects.Fxp._wrapped_numpy_func",):
                 continue
+            if not fresh:
+                from ..pinned import PINNED_FUNCS
+                if f.qualname not in PINNED_FUNCS and f.parent is None:
+                    # a helper introduced by a later edit: what it receives for p is what its callers hand over.  A caller's own **kwargs
+                    # record (a fresh dict per call) or a freshly built object is not anybody's container.
+                    acts = []
+                    for g in prog.all_funcs():
+                        for c in calls_in(g.node):
+                            if prog.resolve_call(g, c) == f.qualname:
+                                ps = [x for x in f.params if not (x == "self" and f.cls)]
+                                a = kw(c, p, ps.index(p) if p in ps else None)
+                                acts.append((g, a))
+                    if acts and all(a is not None and ((isinstance(a, ast.Name) and a.id == g.kwarg) or isinstance(a, (ast.Dict, ast.List, ast.ListComp, ast.Call))) for g, a in acts):
+                        fresh = True
             ck.check(fresh, rule, f, "no function writes into a container it received as an argument", "%s on parameter %s" % (what, p), n,
                      "a tuple argument raises TypeError; a list argument is overwritten in the caller")
     ck.ok(rule, "fxpmath/utils.py, objects.py, functions.py", "%d in-place writes on parameter containers examined" % n_sites, nontrivial=False)
